@@ -54,6 +54,16 @@ CHECKS = {
        'time-boxed counterexample search and are reported as such.',
   design_ref='DESIGN.md §4 C10',
   technique='CrossHair symbolic execution of real escape + parser + z3 (symbolic code points), IR/selection oracle, replay'),
+ 'C07': dict(
+  text='z3 regex/sequence-theory queries over every loop of every live regular expression (token patterns, auxiliary '
+       'patterns, document-side attribute patterns taken from compiled IR): bounded ambiguity witnesses for iteration '
+       'ambiguity (Q1), overlapping alternatives (Q2) and two-way concatenation splits inside loop bodies (Q3); each sat '
+       'model is pumped and timed on the real re engine and on the real parser, and only measured super-polynomial '
+       'growth within 64 characters is reported. unsat = no ambiguity witness up to the size bound.',
+  design_ref='DESIGN.md §4 C07', engine='E2 live regex -> z3 + timing replay', category='other',
+  note='Trusted base: z3 5.1 regex solver, vlib/rx2smt.py (self-checked each run by pushing z3-generated members and '
+       'non-members through the real re), wall-clock timing with a 2 s cut-off on this machine.',
+  technique='regex-to-SMT translation of live patterns, z3 ambiguity queries, pumped timing replay on real re/compile'),
 }
 
 NOT_APPLICABLE = {
